@@ -10,7 +10,7 @@ DRIVER_ROOT = "Pipe"
 SUPPORT_THEOREMS = ['C02Comb.dispose_releases_all_zip', 'C02Comb.dispose_releases_all_combine_latest', 'C02Comb.dispose_releases_all_with_latest_from', 'C02Comb.dispose_releases_all_fork_join', 'C02Comb.dispose_releases_all_amb', 'C02Comb.dispose_releases_all_amb2', 'C02Comb.dispose_releases_all_merge_all', 'C02Comb.dispose_releases_all_merge_maxc', 'C02Comb.dispose_releases_all_switch', 'C02Comb.dispose_releases_all_seq', 'C02Comb.dispose_releases_all_seq_inline', 'C02Comb.dispose_releases_all_catch_handler', 'C02Win.dispose_releases_all_count', 'C02Win.dispose_releases_all_boundaries', 'C02Win.dispose_releases_all_when', 'C02Win.dispose_releases_all_toggle', 'C02Win.dispose_releases_all_time', 'C02Win.dispose_releases_all_time_or_count', 'C02Win.dispose_releases_all_group', 'C02Comb.dispose_releases_all', 'C02Timed.dispose_cancels_timers', 'C02Timed.released_is_silent', 'C02Win.dispose_releases_all_fin', 'C02Win.group_holder_blocks_release']
 THEOREMS = SUPPORT_THEOREMS + ["C03.dispose_silences", "C03.dispose_frees_sources", "C03.stays_disposed", "C03.late_subscription_disposed",
             "C03.fromIterable_polls", "C03.fromIterable_all", "C03.tramp_dispose_truncates", "C03.tramp_notifications_bounded",
-            "C03.tramp_silent_after_dispose", "C03.tramp_dispose_at_start", "C03.tramp_run_complete", "Ownership.ownership_ok"]
+            "C03.tramp_silent_after_dispose", "C03.tramp_dispose_at_start", "C03.tramp_run_complete", "C03.tramp_stale_check_breaks", "Ownership.ownership_ok"]
 RULE = ("generated pipelines (as C02) run once undisposed to collect every distinct virtual time of the run, then re-run with dispose() issued "
         "at those times, both before and after the same-instant notifications; recorded container calls replayed through the Lean heap model; "
         "oracle: after dispose() returned no notification reaches the subscriber, no user callback of the pipeline runs, every test-source "
@@ -22,7 +22,8 @@ RULE = ("generated pipelines (as C02) run once undisposed to collect every disti
         "least one source subscription was open / while the undisposed run still had events to come")
 ASSUMPTIONS = ["windows and groups are flattened inside the generated pipelines (no live group/window subscriber shares a source)",
                "single-threaded execution: virtual time (TestScheduler) for timelines, the default current-thread trampoline for cold synchronous producers"]
-TRUSTED_EXTRA = ["AST ownership translator harness/xlate/ownership.py", "recording wrappers harness/heaptrace.py"]
+TRUSTED_EXTRA = ["AST ownership translator harness/xlate/ownership.py", "recording wrappers harness/heaptrace.py",
+                 "harness/trampipes.py: default-scheduler runs on a fresh thread per case; leaf subscriptions marked by a defer factory (opened) and a finally_action (released)"]
 LEVEL_TEXT = ("Lean theorems: after dispose() nothing is delivered by any AutoDetachObserver (subscriber's or a stage's), for every call list; "
               "dispose(root) at any position of any sequence of container calls disposes everything reachable from the root in that call, "
               "late attachments are disposed at once and nothing is un-disposed; from_iterable pulls exactly k+1 elements when disposed during "
